@@ -6,6 +6,60 @@ STD_ASSUME = ["the Lean model is tied to /repo by the T1 extractor and the T2 co
 HOOK_COMMITS = ["9665c83 verif hooks: yield points in the sse delivery goroutine and handler exit path"]
 
 PROPS = {
+    "C11": {
+        "claimed": True,
+        "model_modules": ["TemplVerif.Model.Handler"],
+        "proof_modules": [],
+        "level_text": "Lean 4 theorems about the model of ComponentHandler over a model of net/http's ResponseWriter: for every configuration and "
+                      "every render outcome (any bytes written, then success or failure) the buffered handler's response is either the complete "
+                      "document with the configured status/content type, or the error response, which is a function of the configuration alone "
+                      "(C11_main, C11_success, C11_failure, C11_default_error); the streamed contrast is stated. Statement-order facts of "
+                      "ServeHTTPBuffered (writer untouched before Render; error branch guarded by `err != nil`; what the error branch does with "
+                      "the writer; the message constant) are regenerated from handler.go and pinned (C11_wiring_pinned). The model is compared with "
+                      "the real handler on httptest recorders over statuses x content types x 7 error-handler behaviours x buffered/streamed x "
+                      "chunk patterns (incl. > 4 KB and > pool buffer) x 7 error kinds, and k chunks-then-fail for every k <= 40 (400 thorough).",
+        "level_note": "Trusted: net/http ResponseWriter semantics as modelled (first WriteHeader/Write freezes headers; Write implies 200; "
+                      "http.Error); the bytes.Buffer pool; error kinds are irrelevant to the model (any non-nil error takes the error branch), "
+                      "which T1 pins and T2 samples with context.Canceled, wrapped, DeadlineExceeded, templ.Error, io errors.",
+        "rule": "4 statuses x 2 content types x 7 error handlers x {buffered, streamed} x 8 chunk patterns x (success + error kinds); k = 0..40 "
+                "chunks then fail under 3 configurations. Non-trivial = the component wrote something and then failed.",
+        "exhaustive": True,
+        "proved": ["C11_main", "C11_success", "C11_failure", "C11_default_error", "C11_stream_contrast", "C11_wiring_pinned (T1)"],
+        "monitored": ["model = real templ.Handler on httptest.ResponseRecorder: status, Content-Type, body"],
+        "partial": [],
+        "trusted_base": ["net/http ResponseWriter / http.Error semantics", "httptest.ResponseRecorder"],
+        "assumptions": STD_ASSUME,
+    },
+    "C18": {
+        "claimed": True,
+        "model_modules": ["TemplVerif.Model.Frame"],
+        "proof_modules": ["TemplVerif.Proofs.Frame"],
+        "level_text": "Lean 4 theorems: every sequence of frames written by the model of stream.Write is read back by the model of stream.Read "
+                      "as the same sequence of bodies for every chunking of the byte stream (C18_roundtrip, via decimal/ParseInt round trip and "
+                      "the header loop), the length header counts bytes, the reader is total (C18_total); and for the call/response transition "
+                      "system of conn.go, for EVERY schedule of calls, responses in any order / late / never / for unknown ids, cancellations "
+                      "and select choices: each completed call holds the response carrying its id or its own cancellation (C18_match), ids are "
+                      "never reused and nothing stays pending (C18_ids), the read loop never blocks when each id is answered at most once "
+                      "(C18_no_block). The models are compared on every run with the real NewStream (real Write framing; read-back under many "
+                      "chunkings incl. every split point of short streams; 33 malformed/truncated frames + random header soup with error kinds) "
+                      "and the real NewConn against a scripted peer over net.Pipe (out-of-order, late, never, unknown-id, cancel-racing-reply), "
+                      "whose observed outcomes are replayed on the Rpc model.",
+        "level_note": "Partial: message bodies are opaque bytes in the theorems (encoding/json is outside); bufio.Reader's chunk-independence is "
+                      "trusted and exercised by T2; the Rpc theorems cover all interleavings of the modelled atomic steps (channel of capacity 1, "
+                      "pending map under its mutex, atomic frame writes under writeMu) - real scheduling is sampled, not forced; a peer that "
+                      "answers one id twice while the caller is cancelled can block the read loop (outside the statement's quantifier; C18_no_block "
+                      "states the needed hypothesis).",
+        "rule": "round trips: random sequences of 1-5 calls/notifications/responses (numeric and string ids, multi-byte and 5 KB payloads) written by "
+                "the real stream, read back whole and in chunks of 1,2,3,5,17,64,4095,4096,4097 and random sizes, and at EVERY two-chunk split of "
+                "streams < 400 bytes; malformed: 33 hand-written header defects x 3 chunkings + random header soup; rpc: rounds of 1-6 concurrent "
+                "callers x 5 peer behaviours. Non-trivial = non-empty stream / more than one caller.",
+        "exhaustive": False,
+        "proved": ["C18_frame_roundtrip", "C18_roundtrip", "C18_length_counts_bytes", "C18_total", "C18_match", "C18_ids", "C18_no_block"],
+        "monitored": ["model framing = real stream.Write bytes", "model reader = real stream.Read (frames and error kinds)", "real NewConn outcomes replay on the Rpc model"],
+        "partial": ["JSON layer; real scheduling"],
+        "trusted_base": ["bufio.Reader", "encoding/json", "net.Pipe"],
+        "assumptions": STD_ASSUME,
+    },
     "C19": {
         "claimed": True,
         "model_modules": ["TemplVerif.Model.Sse"],
